@@ -80,6 +80,19 @@ def spec_admits(sout, iout):
             m = re.fullmatch(r"ok ([0-9.]+):(\d+)", iout)
             if m and m.group(1) == ip and int(lo) <= int(m.group(2)) <= int(hi) and m.group(2) not in bad:
                 return True
+        if alt.startswith("anyip:"):
+            # anyip:<net>/<bits>:!ip1,ip2  = `ok <ip>` for any address of the subnet not in the excluded list
+            _, cidr, excl = alt.split(":", 2)
+            netip, bits = cidr.split("/")
+            bad = set(x for x in excl[1:].split(",") if x)
+            m = re.fullmatch(r"ok ([0-9]+\.[0-9]+\.[0-9]+\.[0-9]+)", iout)
+            if m and m.group(1) not in bad:
+                def num(x):
+                    a = [int(y) for y in x.split(".")]
+                    return (a[0] << 24) | (a[1] << 16) | (a[2] << 8) | a[3]
+                sh = 32 - int(bits)
+                if num(m.group(1)) >> sh == num(netip) >> sh:
+                    return True
     return False
 
 
@@ -110,10 +123,11 @@ def compare_shard(cfg, ops_p, impl_p, model_p, oc, tag):
 
     case_tags = set()
     case_failed = False
+    case_l2 = False
     for i in range(n):
         if ops[i].startswith("case "):
             close_case(i)
-            start, case_tags, case_failed = i, set(), False
+            start, case_tags, case_failed, case_l2 = i, set(), False, False
             continue
         oc.ops += 1
         fi, fm = split_fields(impl[i]), split_fields(model[i])
@@ -137,8 +151,11 @@ def compare_shard(cfg, ops_p, impl_p, model_p, oc, tag):
             oc.l1.append((tag, start, i, iout, mout))
             case_failed = True
         elif ist != "-" and mst != "-" and ist != mst:
-            oc.l2.append((tag, start, i, ist, mst))
-            case_failed = True
+            # internal state differs while the answers still agree: record it once per case and keep
+            # judging the answers (the recorder is still in step with what the implementation did)
+            if not case_l2:
+                oc.l2.append((tag, start, i, ist, mst))
+                case_l2 = True
     close_case(n)
 
 
